@@ -7,7 +7,33 @@ fn fill_value(s: &str) -> f64 {
     match s { "nan" => f64::NAN, "zero" => 0.0, "minus-one" => -1.0, "inf" => f64::INFINITY, _ => panic!("fill") }
 }
 
+/// `c05.big shape k` — a spectrum too large for the list-based model (data `x[i] = 1 + (i * k) % 7`, small integers: every sum is exact):
+/// the fold is checked through what the C05 theorems say about ANY fold — mass is kept (fill 0), entries beyond the midpoint carry the
+/// fill, folding twice changes nothing, folding the mirrored spectrum gives the same result.
+fn eval_big(a: &[&str]) -> Option<String> {
+    let shape = parse_nats(a[0]); let k: usize = a[1].parse().ok()?;
+    let n: usize = shape.iter().product();
+    let data: Vec<f64> = (0..n).map(|i| 1.0 + ((i * k) % 7) as f64).collect();
+    let mass_in: f64 = data.iter().sum();
+    let scs = Scs::new(data.clone(), shape.clone()).ok()?;
+    let f = scs.fold().into_spectrum(0.0);
+    let fs = f.inner().as_slice();
+    let mass_out: f64 = fs.iter().sum();
+    let total: usize = shape.iter().map(|v| v - 1).sum();
+    // allele count of flat index i (row-major)
+    let count = |mut i: usize| -> usize { let mut c = 0; for v in shape.iter().rev() { c += i % v; i /= v; } c };
+    let past_nonzero = (0..n).filter(|&i| 2 * count(i) > total && fs[i] != 0.0).count();
+    let low_wrong = (0..n).filter(|&i| 2 * count(i) < total && fs[i] != data[i] + data[n - 1 - i]).count();
+    let f2 = f.fold().into_spectrum(0.0);
+    let idem = f2.inner().as_slice() == fs;
+    let mut rev = data.clone(); rev.reverse();
+    let fr = Scs::new(rev, shape.clone()).ok()?.fold().into_spectrum(0.0);
+    let mirror = fr.inner().as_slice() == fs;
+    Some(format!("{:016x}|{:016x}|{past_nonzero}|{low_wrong}|{}|{}", mass_in.to_bits(), mass_out.to_bits(), idem as u8, mirror as u8))
+}
+
 pub fn eval(op: &str, a: &[&str]) -> Option<String> {
+    if op == "c05.big" { return eval_big(a); }
     let shape = parse_nats(a[0]);
     let data = parse_bits(a[1]);
     match op {
@@ -32,6 +58,11 @@ pub fn eval(op: &str, a: &[&str]) -> Option<String> {
 }
 
 pub fn gen(ctx: &Ctx, rng: &mut Rng, out: &mut Vec<String>) {
+    // spectra whose total allele count passes 2^16 and 2^17 (narrow integer types for counts): 1-D and very unbalanced 2-D
+    for (i, sh) in [vec![65537usize], vec![131071], vec![131073], vec![140001], vec![2, 131071], vec![131072, 2], vec![3, 70001], vec![300, 500]].into_iter().enumerate() {
+        if !ctx.tier_thorough && i % 2 == 0 && i != 2 { continue; }
+        out.push(format!("c05.big\t{}\t{}", nats(&sh), 3 + i));
+    }
     // call histories on one spectrum object (queries, in-place edits, clones, replacement by its own fold / marginal / projection)
     crate::stat::gen_hist(rng, if ctx.tier_thorough { 600 } else { 60 }, 4, out);
     let mut shp = if ctx.tier_thorough { shapes::all_shapes(1, 4, 1, 7) } else {
